@@ -218,4 +218,75 @@ theorem trun_main_flat (tc : TCfg) (w : World) (ops : List Op) :
     simp only [List.map, trun, run, tstep_main_flat]
     exact ih (step tc.cfg w op).1
 
+/-! ### frame for whole tree ops -/
+
+theorem apply1_files_other (tc : TCfg) (t : Tree) (s s' : Store) (n : NodeSt) (op : Op) (h : s' ≠ s) :
+    (apply1 tc t s n op).1.files s' = t.files s' := put_files_other tc.climb t s s' op _ h
+
+theorem tstep_frame (tc : TCfg) (w : TWorld) (op : TOp) (s : Store) (h : op.touches s = false) :
+    (tstep tc w op).1.tree.files s = w.tree.files s := by
+  cases op with
+  | on s0 o =>
+    have hs : s ≠ s0 := by intro e; subst e; simp [TOp.touches] at h
+    cases s0 <;> simp only [tstep] <;> exact apply1_files_other tc w.tree _ s _ o hs
+  | ckpt c v =>
+    simp only [TOp.touches, Bool.or_eq_false_iff, Bool.and_eq_false_iff, beq_eq_false_iff_ne] at h
+    have hm : s ≠ .main := by simpa using h.1
+    simp only [tstep]
+    split
+    · rename_i hc
+      have hr : s ≠ .recovery := by
+        rcases h.2 with h2 | h2
+        · simpa using h2
+        · exact absurd hc (by simpa using h2)
+      rw [apply1_files_other tc _ .recovery s _ _ hr, apply1_files_other tc _ .main s _ _ hm]
+    · exact apply1_files_other tc _ .main s _ _ hm
+  | ckptCrash c v k =>
+    have hm : s ≠ .main := by intro e; subst e; simp [TOp.touches] at h
+    exact apply1_files_other tc _ .main s _ _ hm
+  | fail c v =>
+    have hm : s ≠ .recovery := by intro e; subst e; simp [TOp.touches] at h
+    exact apply1_files_other tc _ .recovery s _ _ hm
+  | failCrash c v k =>
+    have hm : s ≠ .recovery := by intro e; subst e; simp [TOp.touches] at h
+    exact apply1_files_other tc _ .recovery s _ _ hm
+
+/-! ### delete in the nested layout -/
+
+theorem apply1_delete_files (climb : Bool) (t : Tree) (s : Store) (n : NodeSt) :
+    (apply1 ⟨⟨.atomicReplace, true⟩, climb⟩ t s n .delete).1.files s = Files.none := by
+  simp only [apply1, step, put_files_same]
+  rw [delete_all_sweep .atomicReplace _ (Or.inl rfl)]
+  rfl
+
+/-- with the climbing clean-up: a delete that empties `g/` removes it -/
+theorem apply1_delete_climbs (t : Tree) (s : Store) (n : NodeSt) (ht : t.WF)
+    (hb : t.gEmpty = false ∨ t.gdir = false) :
+    (apply1 TCfg.climbing t s n .delete).1.gEmpty = true → (apply1 TCfg.climbing t s n .delete).1.gdir = false := by
+  simp only [apply1, step, TCfg.climbing, Cfg.current]
+  rw [delete_all_sweep .atomicReplace _ (Or.inl rfl)]
+  obtain ⟨h1, h2, h3⟩ := ht
+  cases s <;>
+    simp_all [Tree.put, Tree.busy, Tree.gEmpty, FS.init, FS.files, Op.cleans, Op.isSave, Files.isNone] <;>
+    (try split) <;> simp_all <;> grind
+
+/-! ### the interface-level statement about `delete` -/
+
+theorem backend_delete_cleans_iff {σ} (b : Backend σ) (hd : b.delComplete) (st : σ) :
+    b.clean (b.delete st) = true ↔ b.truthfulAt st := by
+  unfold Backend.delete Backend.truthfulAt
+  cases hh : (b.hasContent st || b.hasLeftovers st)
+  · cases hcl : b.clean st <;> simp [hcl]
+  · simp [hd st]
+
+theorem pickleBackend_delComplete (hook : Bool) : (pickleBackend hook).delComplete := by
+  intro fs
+  obtain ⟨d, p, q, pt, ct⟩ := fs
+  simp [pickleBackend, deleteSteps, runSteps, Step.apply, FS.set, FS.noFiles]
+
+theorem pickleBackend_truthful (fs : FS) : (pickleBackend true).truthfulAt fs := by
+  obtain ⟨d, p, q, pt, ct⟩ := fs
+  cases p <;> cases q <;> cases pt <;> cases ct <;>
+    simp [pickleBackend, Backend.truthfulAt, hasSaved, hasLeftover, FS.noFiles]
+
 end PwVerif.Storage
